@@ -375,7 +375,7 @@ def run(ctx):
     slp_fam = [(2, 1, ["mut", "simple", "batch", "mut"], 1, 1), (2, 2, ["simple"], 0, 2)]
     if thorough:
         slp_fam += [(2, 2, ["simple", "simple"], 0, 2), (2, 1, ["batch", "mut", "simple"], 1, 2), (3, 1, ["mut", "simple"], 1, 1),
-                    (2, 2, ["mut", "batch", "mut", "batch"], 1, 1)]
+                    (2, 1, ["mut", "batch", "mut", "batch"], 1, 1), (1, 2, ["mut", "batch", "mut", "batch"], 1, 1)]
     slp_live = [(1, 2, ["simple", "batch"], 1, 1)] + ([(2, 1, ["simple", "batch"], 1, 1)] if thorough else [])
     slp_mut = {"nomutex": "concurrent-export", "skipsecond": "simple-not-exported-at-return", "nostopcheck": "processed-after-shutdown",
                "noclone": "content-mismatch"}
@@ -395,8 +395,11 @@ def run(ctx):
         f_live = [(c, ex.submit(liveness, c)) for c in ([] if skip_mc else live)]
         f_slp = [(c, ex.submit(slp, c)) for c in ([] if skip_mc else slp_fam)]
         f_nk = {d: ex.submit(noknown, d) for d in ([] if skip_mc else KNOWN_MODEL + ["no-clone"])}
-        f_rep_live = {n: ex.submit(liveness, tiny if not thorough else live[0], REPAIRS[n]["fixa"], REPAIRS[n]["fixb"], "-repair-" + n)
+        # liveness under a repair: tiny (a flusher and TWO stoppers: everybody who may wait for stopDone); thorough also live[0]
+        f_rep_live = {n: ex.submit(liveness, tiny, REPAIRS[n]["fixa"], REPAIRS[n]["fixb"], "-repair-" + n)
                       for n in ([] if skip_mc else REPAIRS) if thorough or n == "A+B"}
+        f_rep_live2 = {n: ex.submit(liveness, live[0], REPAIRS[n]["fixa"], REPAIRS[n]["fixb"], "-repair-" + n)
+                       for n in ([] if skip_mc or not thorough else REPAIRS)}
         f_rep_left = {(n, d): ex.submit(noknown, d, REPAIRS[n]["fixa"], REPAIRS[n]["fixb"], "-repair-" + n)
                       for n in ([] if skip_mc else REPAIRS) for d in KNOWN_MODEL if d not in REPAIRS[n]["removed"] and d != "D2-chunk-aborted"}
         f_slp_mut = {mu: ex.submit(slp, slp_fam[0], mu, "Observed", False, "-" + mu) for mu in ([] if skip_mc else slp_mut)}
@@ -447,6 +450,9 @@ def run(ctx):
                                      ("timeout" if f_rep[(n, c)].result()["timed_out"] else "holds")) for c in rep_cfgs if (n, c) in f_rep}
             left = {d: f_rep_left[(n, d)].result()["violated"] == "Contract" for d in KNOWN_MODEL if (n, d) in f_rep_left}
             lv = f_rep_live[n].result() if n in f_rep_live else None
+            lv2 = f_rep_live2[n].result() if n in f_rep_live2 else None
+            if lv is not None and lv2 is not None and (lv2["violated"] or lv2["error"] or lv2["timed_out"]):
+                lv = lv2
             matrix[n] = {"removes": rp["removed"], "contract_without_them": holds or "thorough tier only",
                          "still_found": sorted(d for d, v in left.items() if v), "not_found_although_not_claimed": sorted(d for d, v in left.items() if not v and d != "D2-chunk-aborted"),
                          "every_call_returns": ("thorough tier only" if lv is None else "yes" if not (lv["violated"] or lv["error"] or lv["timed_out"])
